@@ -25,7 +25,9 @@ def run_and_validate(exe, jobs, metas, name, nproc=10):
             for k in ("err", "ledger"):
                 e.pop(k, None) if k == "err" else None
             ev.append(e)
-        traces.append({"id": j["id"], "kind": m["kind"], "observer_expected": m.get("observer_expected", []), "ev": ev})
+        tr = {"id": j["id"], "kind": m["kind"], "observer_expected": m.get("observer_expected", []), "ev": ev}
+        if "observer_exports" in m: tr["observer_exports"] = m["observer_exports"]
+        traces.append(tr)
     tp = os.path.join(DIR, name + "_traces.ndjson")
     with open(tp, "w") as f:
         for t in traces: f.write(json.dumps(t) + "\n")
